@@ -80,7 +80,14 @@ Section Prims.
     if is ".is_default" then
       match args with [VObj v] => lift_k (is_default v) VBool s k | _ => stuck f s end
     else if is ".len" then
-      match args with [VObj v] => lift_k (len v) VInt s k | _ => stuck f s end
+      match args with
+      | [VObj v] => lift_k (len v) VInt s k
+      | [x] => match ctor_is "Slice" x with
+               | Some vs => k (VInt (Z.of_nat (List.length vs))) s
+               | None => stuck f s
+               end
+      | _ => stuck f s
+      end
     else if is ".capacity" then
       match args with [VObj v] => lift_k (capacity v) VInt s k | _ => stuck f s end
     else if is ".alignment" then
@@ -502,5 +509,34 @@ Section Prims.
                   end
       | _ => stuck f s
       end
+    (* ---- `for x in <iterable>` and `while let Some(x) = it.next()`: the hidden iterator of a `for` loop.
+            A slice (`VCtor "Slice"`, the identities of its elements in order) is iterated by value --
+            `for:next` is its head, `for:rest` its tail; a Drain / Splice object is iterated through
+            Machine.drain_next_at and stays the same object ---- *)
+    else if is "for:into_iter" then
+      match args with [x] => k x s | _ => stuck f s end
+    else if is "for:next" || is ".next" then
+      match args with
+      | [x] => match ctor_is "Slice" x, ctor_is "Iter" x with
+               | Some (v :: _), _ => if is "for:next" then k (VCtor "Some" [v]) s else stuck f s
+               | Some [], _ => if is "for:next" then k (VCtor "None" []) s else stuck f s
+               | None, Some [VObj i] => lift_k (drain_next_at cfg i) opt_elem_val s k
+               | _, _ => stuck f s
+               end
+      | _ => stuck f s
+      end
+    else if is "for:rest" then
+      match args with
+      | [x] => match ctor_is "Slice" x with
+               | Some (_ :: vs) => k (VCtor "Slice" vs) s
+               | _ => k x s
+               end
+      | _ => stuck f s
+      end
+    (* core::mem::drop of an element handed out by an iterator; mem::forget of a guard *)
+    else if is "drop" then
+      match args with [VInt e] => lift_k (drop_elem cfg e) vunit s k | _ => stuck f s end
+    else if is "forget" then
+      match args with [_] => k VUnit s | _ => stuck f s end
     else stuck f s.
 End Prims.
